@@ -194,6 +194,11 @@ func runC12(c *rt.Ctx) {
 			for _, orca := range []string{"l1l2b", "l1only"} {
 				cfg := Cfg{Orca: orca, Lock: lock, Proto: proto, L1H: "std", Conc: 0}
 				cmds := concOps(proto == "binary", "a", "b", "0")
+				if proto == "binary" {
+					// get-with-expiry: served by L1-only, answered "unknown command" by L1/L2 - an
+					// error return (not a panic) from underneath the wrapper either way
+					cmds = append(cmds, wire.Op{Kind: "gete", Key: "a"})
+				}
 				for _, ni := range initStates("a") {
 					iname, init := ni.Name, ni.Ops
 					if orca == "l1only" && iname == "l2only" {
@@ -294,7 +299,7 @@ func exploreLockFault(c *rt.Ctx, sc ConcScenario, f *HandlerFault) (hit bool) {
 			switch fd.Clause {
 			case "deadlock":
 				report("lock-never-released", "the follow-up command on the same key never proceeds: "+fd.What)
-			case "lock-leaked", "multiple-locks-held", "lock-model-conformance", "panic-escaped":
+			case "lock-leaked", "multiple-locks-held", "lock-model-conformance", "panic-escaped", "pooled-object-put-twice":
 				report(fd.Clause, fd.What)
 			}
 		}
